@@ -142,22 +142,23 @@ void ir_memmove(uint64_t d, uint64_t s, uint64_t n)
 }
 
 #ifdef IR_MEMSET_SWEEP
-/* bytes [lo, lo+n) of the word array A := v, as one pass over ALL words with constant indices: cost is fixed by the
- * array size, independent of n, and needs no unwinding bound (preferable when n is symbolic and large) */
-#define memset_words(A, lo, n, v) memset_sweep(A, (A == HEAP ? HEAP_SIZE : A == STK ? STK_SIZE : GLB_SIZE) / 8, lo, n, v)
-static void memset_sweep(uint64_t* A, uint64_t words, uint64_t lo, uint64_t n, uint8_t v)
-{
-    uint64_t hi = lo + n, pat = UINT64_C(0x0101010101010101) * v;
-    for (uint64_t w = 0; w < words; ++w) {
-        uint64_t wlo = w << 3;
-        if (hi > wlo && lo < wlo + 8) {
-            uint64_t mk = ~UINT64_C(0);
-            if (lo > wlo) mk &= ~UINT64_C(0) << ((lo - wlo) * 8);
-            if (hi < wlo + 8) mk &= ~UINT64_C(0) >> ((wlo + 8 - hi) * 8);
-            A[w] = (A[w] & ~mk) | (pat & mk);
-        }
+/* bytes [lo, lo+n) of a word array := v, as one pass over ALL its words with constant indices: the cost is fixed by
+ * the array size, independent of n, and needs no data-dependent unwinding bound (n symbolic and large is fine) */
+#define SWEEP_BODY(A, WORDS)                                                                \
+    uint32_t lo_ = (uint32_t)lo, hi_ = (uint32_t)(lo + n);    /* regions are far smaller than 4 GiB */ \
+    uint64_t pat = UINT64_C(0x0101010101010101) * v;                                        \
+    for (uint32_t w = 0; w < (WORDS); ++w) {                                                \
+        uint32_t wlo = w << 3;                                                              \
+        if (hi_ > wlo && lo_ < wlo + 8) {                                                   \
+            uint64_t mk = ~UINT64_C(0);                                                     \
+            if (lo_ > wlo) mk &= ~UINT64_C(0) << (((lo_ - wlo) & 7) * 8);                   \
+            if (hi_ < wlo + 8) mk &= ~UINT64_C(0) >> (((wlo + 8 - hi_) & 7) * 8);           \
+            A[w] = (A[w] & ~mk) | (pat & mk);                                               \
+        }                                                                                   \
     }
-}
+static void memset_sweep_heap(uint64_t lo, uint64_t n, uint8_t v) { SWEEP_BODY(HEAP, HEAP_SIZE / 8) }
+static void memset_sweep_stk(uint64_t lo, uint64_t n, uint8_t v) { SWEEP_BODY(STK, STK_SIZE / 8) }
+static void memset_sweep_glb(uint64_t lo, uint64_t n, uint8_t v) { SWEEP_BODY(GLB, GLB_SIZE / 8) }
 #else
 static void memset_words(uint64_t* A, uint64_t lo, uint64_t n, uint8_t v)
 {   /* bytes [lo, lo+n) of the word array A := v ; one read-modify-write per touched word */
@@ -176,9 +177,15 @@ void ir_memset(uint64_t d, uint8_t v, uint64_t n)
 #ifdef IR_PHANTOM
     if (d >= PH_BASE) return;   /* fill of payload, dropped (see above) */
 #endif
+#ifdef IR_MEMSET_SWEEP
+    if (INR(d, HEAP_BASE, HEAP_SIZE, 1) && n <= HEAP_SIZE - (d - HEAP_BASE)) { memset_sweep_heap(d - HEAP_BASE, n, v); return; }
+    if (INR(d, STK_BASE, STK_SIZE, 1) && n <= STK_SIZE - (d - STK_BASE)) { memset_sweep_stk(d - STK_BASE, n, v); return; }
+    if (INR(d, GLB_BASE, GLB_SIZE, 1) && n <= GLB_SIZE - (d - GLB_BASE)) { memset_sweep_glb(d - GLB_BASE, n, v); return; }
+#else
     if (INR(d, HEAP_BASE, HEAP_SIZE, 1) && n <= HEAP_SIZE - (d - HEAP_BASE)) { memset_words(HEAP, d - HEAP_BASE, n, v); return; }
     if (INR(d, STK_BASE, STK_SIZE, 1) && n <= STK_SIZE - (d - STK_BASE)) { memset_words(STK, d - STK_BASE, n, v); return; }
     if (INR(d, GLB_BASE, GLB_SIZE, 1) && n <= GLB_SIZE - (d - GLB_BASE)) { memset_words(GLB, d - GLB_BASE, n, v); return; }
+#endif
     IR_CHECK(0, "memset outside every writable memory region");
 }
 
